@@ -60,6 +60,7 @@ def check_C01(K, prop, tier, seed, t0):
         ("singles", dict(CFGS="U_C01_singles", MAXLEN=n, MOD=2 if q else 1, SEED=seed)),
         ("triples", dict(CFGS="U_C01_triples", MAXLEN=n)),
         ("simple", dict(CFGS="U_C01_simple", MAXLEN=2 if q else 3)),
+        ("simple-repeated", dict(CFGS="U_C01_simple3", MAXLEN=3 if q else 4)),
     ]
     if not q:
         legs += [("quads", dict(CFGS="U_C01_quads", MAXLEN=4, MOD=2, SEED=seed)),
